@@ -19,6 +19,7 @@
 
 use crate::errors::{Error, Result};
 use erltf::OwnedTerm;
+use erltf::types::{BigInt, Sign};
 use std::convert::TryFrom;
 use std::mem;
 
@@ -330,6 +331,38 @@ pub enum ControlMessage {
     },
 }
 
+/// Unlink ids are unsigned 64-bit numbers. Values up to `i64::MAX` are carried as
+/// integers, larger ones as non-negative big integers. The decoder yields a big
+/// integer for every value of 2^31 and above, so both forms must be accepted.
+fn unlink_id_from_term(term: &OwnedTerm) -> Option<u64> {
+    match term {
+        OwnedTerm::Integer(i) => u64::try_from(*i).ok(),
+        OwnedTerm::BigInt(big) if big.sign.is_positive() => {
+            let mut id: u64 = 0;
+            let mut i = big.digits.len();
+            while i > 0 {
+                i -= 1;
+                if id > (u64::MAX >> 8) {
+                    return None;
+                }
+                id = (id << 8) | u64::from(big.digits[i]);
+            }
+            Some(id)
+        }
+        _ => None,
+    }
+}
+
+fn unlink_id_to_term(id: u64) -> OwnedTerm {
+    match i64::try_from(id) {
+        Ok(i) => OwnedTerm::Integer(i),
+        Err(_) => OwnedTerm::BigInt(BigInt {
+            sign: Sign::Positive,
+            digits: id.to_le_bytes().to_vec(),
+        }),
+    }
+}
+
 impl ControlMessage {
     /// Parse a control message from an Erlang term (tuple)
     pub fn from_term(term: &OwnedTerm) -> Result<Self> {
@@ -376,38 +409,28 @@ impl ControlMessage {
             }),
 
             Some(ControlMessageType::UnlinkId) if elements.len() == 4 => {
-                let id_raw = elements[1].as_integer().ok_or_else(|| {
-                    Error::InvalidControlMessage("UNLINK_ID id must be an integer".to_string())
+                let id = unlink_id_from_term(&elements[1]).ok_or_else(|| {
+                    Error::InvalidControlMessage(
+                        "UNLINK_ID id must be an unsigned 64-bit integer".to_string(),
+                    )
                 })?;
 
-                if id_raw < 0 {
-                    return Err(Error::InvalidControlMessage(format!(
-                        "UNLINK_ID id must be non-negative: {}",
-                        id_raw
-                    )));
-                }
-
                 Ok(ControlMessage::UnlinkId {
-                    id: id_raw as u64,
+                    id,
                     from_pid: elements[2].clone(),
                     to_pid: elements[3].clone(),
                 })
             }
 
             Some(ControlMessageType::UnlinkIdAck) if elements.len() == 4 => {
-                let id_raw = elements[1].as_integer().ok_or_else(|| {
-                    Error::InvalidControlMessage("UNLINK_ID_ACK id must be an integer".to_string())
+                let id = unlink_id_from_term(&elements[1]).ok_or_else(|| {
+                    Error::InvalidControlMessage(
+                        "UNLINK_ID_ACK id must be an unsigned 64-bit integer".to_string(),
+                    )
                 })?;
 
-                if id_raw < 0 {
-                    return Err(Error::InvalidControlMessage(format!(
-                        "UNLINK_ID_ACK id must be non-negative: {}",
-                        id_raw
-                    )));
-                }
-
                 Ok(ControlMessage::UnlinkIdAck {
-                    id: id_raw as u64,
+                    id,
                     from_pid: elements[2].clone(),
                     to_pid: elements[3].clone(),
                 })
@@ -648,7 +671,7 @@ impl ControlMessage {
                 to_pid,
             } => OwnedTerm::Tuple(vec![
                 OwnedTerm::Integer(ControlMessageType::UnlinkId as i64),
-                OwnedTerm::Integer(*id as i64),
+                unlink_id_to_term(*id),
                 from_pid.clone(),
                 to_pid.clone(),
             ]),
@@ -659,7 +682,7 @@ impl ControlMessage {
                 to_pid,
             } => OwnedTerm::Tuple(vec![
                 OwnedTerm::Integer(ControlMessageType::UnlinkIdAck as i64),
-                OwnedTerm::Integer(*id as i64),
+                unlink_id_to_term(*id),
                 from_pid.clone(),
                 to_pid.clone(),
             ]),
@@ -973,7 +996,7 @@ impl ControlMessage {
                 to_pid,
             } => OwnedTerm::Tuple(vec![
                 OwnedTerm::Integer(ControlMessageType::UnlinkId as i64),
-                OwnedTerm::Integer(id as i64),
+                unlink_id_to_term(id),
                 from_pid,
                 to_pid,
             ]),
@@ -984,7 +1007,7 @@ impl ControlMessage {
                 to_pid,
             } => OwnedTerm::Tuple(vec![
                 OwnedTerm::Integer(ControlMessageType::UnlinkIdAck as i64),
-                OwnedTerm::Integer(id as i64),
+                unlink_id_to_term(id),
                 from_pid,
                 to_pid,
             ]),
